@@ -50,6 +50,25 @@ def _dag_walker_is_exception_safe():
 
 REPLACE_DIRTY_SIM = not _dag_walker_is_exception_safe()
 
+
+def _simplifier_is_repaired():
+    """is notes/patches/C11-simplifier-soundness.patch in the tree?  (Exists v.(v == o1 & !(v == o2)) reaches
+    its fixed point `true` in one pass only with the repaired walk_exists.)  The driver's simplifier is
+    property C11's model of the REPAIRED code; on an unrepaired tree the generators keep out of the shapes
+    on which the two differ observably (an `x == t` conjunct on the bound variable of an Exists)."""
+    from unified_planning.shortcuts import UserType, Object, Variable, Exists, And, Not, Equals, ObjectExp
+    try:
+        t = UserType("ProbeT")
+        o1, o2 = Object("probe_o1", t), Object("probe_o2", t)
+        v = Variable("probe_v", t)
+        e = Exists(And(Equals(v, ObjectExp(o1)), Not(Equals(v, ObjectExp(o2)))), v)
+        return e.simplify().is_true()
+    except Exception:
+        return False
+
+
+SIMPLIFIER_REPAIRED = _simplifier_is_repaired()
+
 # ------------------------------------------------------------------------------------------------
 # problem generation (reading decisions of DESIGN 2.11 + the ones listed in ASSUMPTIONS of C01.py)
 # ------------------------------------------------------------------------------------------------
@@ -202,7 +221,7 @@ def gen_problem(rng, undefined=True):
                 ps[j] = sec + extra_invariants(rng, g)
     flags = {}
     ps = normalise_problem(ps, flags)
-    if flags.get("exists-eq"):
+    if flags.get("exists-eq") and not SIMPLIFIER_REPAIRED:
         KEPT_OUT["exists-eq-elimination"] += 1
         return None
     try:
@@ -214,7 +233,7 @@ def gen_problem(rng, undefined=True):
     # the builders may re-create shapes (they do not); run the normaliser once more for safety
     flags2 = {}
     canon2 = normalise_problem(canon, flags2)
-    if flags2.get("exists-eq") or canon2 != canon:
+    if (flags2.get("exists-eq") and not SIMPLIFIER_REPAIRED) or canon2 != canon:
         KEPT_OUT["exists-eq-elimination"] += 1
         return None
     return canon
@@ -460,8 +479,15 @@ def interleave_ops(real, rng, n_ops):
                     if s2 is not None:
                         states[len(ops)] = s2
                         live.append(len(ops))
-        elif k < 0.5:
+        elif k < 0.47:
             ops.append(["applicable", str(i)])
+        elif k < 0.5:
+            # asking for the initial state again must give the same state
+            ops.append(["init"])
+            a, s2 = real.query(real.sim, ops[-1], _slotview(states))
+            if s2 is not None:
+                states[len(ops)] = s2
+                live.append(len(ops))
         elif k < 0.64:
             ops.append(["goal", str(i)])
             ops.append(["ugoals", str(i)])
